@@ -42,6 +42,19 @@ fn sorted<T: Ord + Clone>(v: &[T]) -> Vec<T> {
 fn same_multiset<T: Ord + Clone>(a: &[T], b: &[T]) -> bool {
     sorted(a) == sorted(b)
 }
+/// a type whose Clone is observable: the clone is one generation older
+#[derive(Debug, PartialEq, Eq)]
+struct Gen(u8, u8);
+impl Clone for Gen {
+    fn clone(&self) -> Gen {
+        Gen(self.0, self.1 + 1)
+    }
+}
+impl Gen {
+    fn clone_exact(&self) -> Gen {
+        Gen(self.0, self.1)
+    }
+}
 /// position_post / idiom_iter_position for a pure predicate
 fn position_post(vals: &[u8], p: impl Fn(&u8) -> bool, r: Option<usize>) -> R {
     match r {
@@ -66,7 +79,7 @@ pub fn run(cx: &mut Cx) {
         ensure!(view(&d) == exp, "retain: {pre:?} -> {:?}, seq_filter_by = {exp:?}", view(&d));
         Ok(())
     });
-    cx.check("barriers_std.rs::Vec::retain", |rng| {
+    cx.check_in(&["barriers_std.rs", "nettable_std.rs"], "Vec::retain", |rng| {
         let mut v = rng.small_vec(24, 12);
         let pre = v.clone();
         let p = pred(rng);
@@ -189,12 +202,76 @@ pub fn run(cx: &mut Cx) {
         ensure!(v == exp, "v[{a}..{b}] written: {pre:?} -> {v:?}, spec {exp:?}");
         Ok(())
     });
-    cx.check("fs_vec.rs::<[T]>::fill", |rng| {
-        let mut v = rng.bytes(24);
-        let n = v.len();
-        let x = rng.u8();
-        v.fill(x);
-        ensure!(v.len() == n && v.iter().all(|y| *y == x), "fill({x}) -> {v:?}");
+    // fs_vec.rs (corrected; was `final(s)@[i] == v` for every T: Clone) and uring_std.rs: `cloned(v, final(s)@[i])`, i.e. each element is
+    // T::clone's result on v or v itself (std clones v into all slots but the last and moves v into the last).
+    // Both are exercised with u8 (clone == identity) and with a type whose Clone is NOT the identity.
+    cx.want(&["identity-clone", "other-clone"]).check("fs_vec.rs::<[T]>::fill", |rng| {
+        if rng.bool() {
+            hit("identity-clone");
+            let mut v = rng.bytes(24);
+            let n = v.len();
+            let x = rng.u8();
+            v.fill(x);
+            ensure!(v.len() == n && v.iter().all(|y| *y == x), "fill({x}) -> {v:?}");
+        } else {
+            hit("other-clone");
+            let mut v: Vec<Gen> = (0..rng.range(0, 6)).map(|_| Gen(rng.u8(), 0)).collect();
+            let n = v.len();
+            let x = Gen(rng.u8(), rng.u8() % 4);
+            v.fill(x.clone_exact());
+            // corrected stub (same clause as uring_std.rs): vstd::pervasive::cloned(v, e) for every element
+            ensure!(v.len() == n && v.iter().all(|e| *e == x.clone() || *e == x), "fill({x:?}) -> {v:?}");
+        }
+        Ok(())
+    });
+    cx.want(&["identity-clone", "other-clone"]).check("uring_std.rs::<[T]>::fill", |rng| {
+        if rng.bool() {
+            hit("identity-clone");
+            let mut v = rng.bytes(24);
+            let n = v.len();
+            let x = rng.u8();
+            v.fill(x);
+            ensure!(v.len() == n && v.iter().all(|y| *y == x), "fill({x}) -> {v:?}");
+        } else {
+            hit("other-clone");
+            let mut v: Vec<Gen> = (0..rng.range(0, 6)).map(|_| Gen(rng.u8(), 0)).collect();
+            let n = v.len();
+            let x = Gen(rng.u8(), rng.u8() % 4);
+            v.fill(x.clone_exact());
+            // vstd::pervasive::cloned(v, e): call_ensures(T::clone, (&v,), e) || v == e
+            ensure!(v.len() == n && v.iter().all(|e| *e == x.clone() || *e == x), "fill({x:?}) -> {v:?}");
+        }
+        Ok(())
+    });
+
+    // ------------------------------------------------------------------ fs_idioms.rs
+    cx.want(&["both", "left-only", "right-only"]).check("fs_idioms.rs::<Vec as IdiomDrainPartition>::idiom_drain_partition", |rng| {
+        let mut v = rng.small_vec(20, 12);
+        let pre = v.clone();
+        let p = pred(rng);
+        let (a, b): (Vec<u8>, Vec<u8>) = v.drain(..).partition::<Vec<u8>, _>(|x| p(x));
+        hit(match (a.is_empty(), b.is_empty()) { (false, false) => "both", (false, true) => "left-only", (true, false) => "right-only", _ => "none" });
+        let (ea, eb) = (seq_filter_by(&pre, &|x: &u8| p(x)), seq_filter_by(&pre, &|x: &u8| !p(x)));
+        ensure!(v.is_empty(), "drain(..).partition left {v:?}");
+        ensure!(a == ea && b == eb, "partition of {pre:?} = ({a:?}, {b:?}), spec ({ea:?}, {eb:?})");
+        Ok(())
+    });
+    cx.want(&["some", "none"]).check("fs_idioms.rs::<Vec as IdiomFindMap>::idiom_find_map", |rng| {
+        let v = rng.small_vec(16, 12);
+        let p = pred(rng);
+        let f = move |x: &u8| if p(x) { Some(*x as u32 + 100) } else { None };
+        let r = v.iter().find_map(|x| f(x));
+        match r {
+            Some(_) => ensure!({ hit("some"); v.iter().any(|x| f(x) == r) }, "find_map = {r:?} but no element of {v:?} maps to it"),
+            None => ensure!({ hit("none"); v.iter().all(|x| f(x).is_none()) }, "find_map = None but f is Some somewhere in {v:?}"),
+        }
+        Ok(())
+    });
+    cx.check("fs_idioms.rs::<[T]>::to_vec", |rng| {
+        let s: Vec<Gen> = (0..rng.range(0, 12)).map(|_| Gen(rng.u8(), rng.u8() % 4)).collect();
+        let v = s[..].to_vec();
+        // call_ensures(T::clone, (&s[i],), v[i]) for a Clone that is not the identity
+        ensure!(v.len() == s.len() && (0..s.len()).all(|i| v[i] == s[i].clone()), "to_vec of {s:?} = {v:?}");
         Ok(())
     });
 
@@ -305,6 +382,49 @@ pub fn run(cx: &mut Cx) {
         d.extend(add.clone());
         let exp: Vec<u8> = [&pre[..], &add[..]].concat();
         ensure!(view(&d) == exp, "extend: {pre:?} + {add:?} -> {:?}", view(&d));
+        Ok(())
+    });
+    // drain(..) (RangeFull only: axiom_range_full): yields everything front to back; the deque ends up empty also
+    // when the iterator is dropped early or leaked
+    cx.want(&["all", "early-drop", "forget"]).check("uring_std.rs::VecDeque::drain(..) + axiom_range_full", |rng| {
+        let mut d = gen_deque(rng, 50);
+        let pre = view(&d);
+        match rng.below(3) {
+            0 => {
+                hit("all");
+                let mut it = d.drain(..);
+                let mut got = vec![];
+                while let Some(x) = it.next() {
+                    got.push(x);
+                }
+                ensure!(it.next().is_none(), "drain yields again after None");
+                drop(it);
+                ensure!(got == pre, "drain(..) yields {got:?}, deque was {pre:?}");
+            }
+            1 => {
+                hit("early-drop");
+                let k = rng.range(0, pre.len());
+                let got: Vec<u8> = d.drain(..).take(k).collect();
+                ensure!(got == pre[..k].to_vec(), "first {k} of drain(..) = {got:?}, deque was {pre:?}");
+            }
+            _ => {
+                hit("forget");
+                std::mem::forget(d.drain(..));
+            }
+        }
+        ensure!(d.is_empty(), "deque after drain(..): {:?}", view(&d));
+        Ok(())
+    });
+    cx.check("uring_std.rs::raw_buf / raw_buf_mut + axiom_raw_mem_len (slice::from_raw_parts over live memory)", |rng| {
+        let mut mem = rng.bytes(32);
+        let len = rng.range(0, mem.len());
+        let copy = mem.clone();
+        let r: &[u8] = unsafe { std::slice::from_raw_parts(mem.as_ptr(), len) };
+        ensure!(r.len() == len && r == &copy[..len], "from_raw_parts(ptr, {len})");
+        let w: &mut [u8] = unsafe { std::slice::from_raw_parts_mut(mem.as_mut_ptr(), len) };
+        ensure!(w.len() == len && w == &copy[..len], "from_raw_parts_mut(ptr, {len})");
+        w.fill(0xaa);
+        ensure!(mem[..len].iter().all(|b| *b == 0xaa) && mem[len..] == copy[len..], "write through from_raw_parts_mut");
         Ok(())
     });
     cx.check("uring_std.rs::<Vec as SliceRandom>::shuffle", |rng| {
